@@ -33,6 +33,10 @@ func VH_C10_Conn(scenario int) {
 	case 0: // produce then list offsets
 		script = append(script, vhProduceResponse(2, 7, "t", 0, code, 5, 1000, 0, 0)...)
 		script = append(script, vhListOffsetsFrame(3, "t", 0, 0, -1, 9)...)
+	case 2: // every Seek mode: two list-offsets answers (first, last) for the modes that check the bounds
+		script = script[:0]
+		script = append(script, vhListOffsetsFrame(1, "t", 0, 0, -1, 0)...)
+		script = append(script, vhListOffsetsFrame(2, "t", 0, 0, -1, 9)...)
 	case 1: // fetch, read, close batch, seek
 		script = append(script, vhFetchResponse(2, 10, 0, "t", 0, code, 10, vhEncMessage(0, 1, 0, 1000, nil, []byte("v")))...)
 		script = append(script, vhListOffsetsFrame(3, "t", 0, 0, -1, 0)...)
@@ -64,6 +68,13 @@ func VH_C10_Conn(scenario int) {
 		b.Close()
 		c.Seek(1, SeekCurrent)
 		c.SetReadDeadline(time.Unix(2000000000, 0))
+	case 2:
+		whence := []int{SeekStart, SeekAbsolute, SeekEnd, SeekCurrent}[vhChoose("whence", 4)]
+		if vhChoose("dontcheck", 2) == 1 {
+			whence |= SeekDontCheck
+		}
+		c.Seek(1, whence)
+		c.Offset()
 	}
 	c.Close()
 	vhGuardCheck(false)
@@ -86,10 +97,16 @@ func VH_C10_Balancers() {
 	vhReach("c10-balancers")
 }
 
-func VH_C10_Writer() {
+func VH_C10_Writer(scenario int) {
 	vhConcreteClock(true)
 	tr := &vhTransport{partitions: 1, budget: 1}
 	w := &Writer{Addr: TCP("vh:9092"), Topic: "t", MaxAttempts: 2, BatchSize: 1, Transport: tr, RequiredAcks: RequireAll}
+	if scenario == 1 {
+		// batches of two: the first call fills a batch (flushed by size), the second leaves one message in an
+		// open batch that only the BatchTimeout timer flushes (partitionWriter.awaitBatch, timer branch)
+		w.BatchSize = 2
+		w.BatchTimeout = 10 * time.Millisecond
+	}
 	vhGuarded(w, "closed", &w.mutex)
 	vhGuarded(w, "writers", &w.mutex)
 	vhGuardCheck(true)
@@ -99,7 +116,11 @@ func VH_C10_Writer() {
 		vhGuarded(&ptw.queue, "queue", ptw.queue.mutex)
 		vhGuarded(&ptw.queue, "closed", ptw.queue.mutex)
 	}
-	w.WriteMessages(context.Background(), Message{Value: []byte{3}})
+	err := w.WriteMessages(context.Background(), Message{Value: []byte{3}})
+	if scenario == 1 {
+		vhAssert(err == nil, "timer-flushed-batch-completes")
+		vhReach("c10-writer-timer-flush")
+	}
 	w.Stats()
 	w.Close()
 	w.WriteMessages(context.Background(), Message{Value: []byte{4}})
